@@ -330,11 +330,17 @@ def rule_gen3(ctx: Ctx) -> RuleResult:
     return r
 
 
-def rule_cfg1(ctx: Ctx) -> RuleResult:
+def rule_cfg1_timing(ctx: Ctx) -> RuleResult:
+    """CFG-1 for a property that does not depend on what the user functions return (C11, promptness): a memoised user function is
+    not a violation of it, only something the analysis cannot see through"""
+    return rule_cfg1(ctx, memo_is_finding=False)
+
+
+def rule_cfg1(ctx: Ctx, memo_is_finding=True) -> RuleResult:
     """CFG-1: the handlers are analysed per valuation of the factory parameters they test (reduce, incremental, header, ...).  That
     reading is only right when the value tested is the caller's: a parameter rebound in the factory from something else than itself
     (another parameter, a helper call) reaches the handlers with a value the valuations do not describe -- the run cannot decide."""
-    r = RuleResult("CFG-1", "the factory parameters a handler tests reach it as the caller gave them (not recomputed in between)")
+    r = RuleResult("CFG-1", "the factory parameters a handler tests or calls reach it as the caller gave them (not recomputed or wrapped in between)")
     for site in ctx.sites:
         m = site.module
         for which in ("on_next", "on_completed", "on_error"):
@@ -344,7 +350,15 @@ def rule_cfg1(ctx: Ctx) -> RuleResult:
                 except AnalysisError:
                     continue
                 r.instances += 1
-                for name in space:
+                # ... and the user functions the handlers call (key_mapper, predicate, accumulator ...): a wrapper put around one in the
+                # factory is called in its place
+                ucalled = set()
+                kinds = [k for k in KINDS if k != "Other"] if (site.ctor != "create" and which == "on_next") else (None,)
+                for kind in kinds:
+                    for cfg in valuations(space):
+                        for p in ctx.paths(spec, kind, cfg):
+                            ucalled |= {e.d.get("name") for e in p.trace if e.k == "ucall" and e.d.get("name")}
+                for name in list(space) + sorted(ucalled - set(space)):
                     f = m.enclosing_function(spec.fn)
                     while f is not None:
                         sc = m.scopes.get(f)
@@ -358,6 +372,22 @@ def rule_cfg1(ctx: Ctx) -> RuleResult:
                                 v = s.value
                                 others = [x for x in ast.walk(v) if (isinstance(x, ast.Name) and x.id not in (name, "bool", "True", "False", "None"))
                                           or isinstance(x, ast.Attribute)] if v is not None else []
+                                memo = [x for x in ast.walk(v) if isinstance(x, (ast.Name, ast.Attribute)) and
+                                        (x.id if isinstance(x, ast.Name) else x.attr) in ("lru_cache", "cache")] if v is not None else []
+                                helper = None
+                                if v is not None and isinstance(v, ast.Call) and isinstance(v.func, ast.Name):
+                                    from ..model import _lookup_def
+                                    helper = _lookup_def(m, f, v.func.id)
+                                    if helper is not None:
+                                        memo += [x for x in ast.walk(helper) if isinstance(x, (ast.Name, ast.Attribute)) and
+                                                 (x.id if isinstance(x, ast.Name) else x.attr) in ("lru_cache", "cache")]
+                                if memo and name in ucalled and memo_is_finding:
+                                    r.ob(False, lambda s=s, name=name, sc=sc: Finding(
+                                        "CFG-1", "%s::%s{%s memoised}" % (m.relpath, sc.qualname, name), m.where(s),
+                                        "the user function '%s' is called through functools.lru_cache (%s): the cache answers by hash and ==, so an item that is "
+                                        "equal to an earlier one but distinguishable from it (1 / 1.0 / True, a namedtuple differing in such a field) gets the "
+                                        "earlier item's result, and a function that is not pure is not re-evaluated" % (name, ast.unparse(s)[:60])))
+                                    continue
                                 if others or isinstance(s, ast.AugAssign):
                                     raise AnalysisError(
                                         "%s: the parameter '%s', which the handlers of %s test, is recomputed in %s (%s): the handlers no longer see the value "
